@@ -1,7 +1,7 @@
 (* C06: property theorems (see bin/propcfg/C06.py for the status). *)
 From Coq Require Import List ZArith Bool Lia Permutation.
 From DD Require Import Model.Circuit Model.Query Model.Enumerate Proofs.Semantics Proofs.DetCert
-     Proofs.CountsA Proofs.QueryDefs
+     Proofs.CountsA Proofs.QueryDefs Proofs.Live
      Proofs.C06Prefix Proofs.C06Machine Proofs.C06Node Proofs.C06Sort Proofs.C06Page
      Proofs.C06Final.
 Import ListNotations.
@@ -24,7 +24,11 @@ Print Assumptions C06_compatible_count.
    Definitions used below (all in Proofs/C06*.v):
      EO A C i        = filter (okA A) (nth i (enums C) [])   full enumeration of node i under A
      EOr C A         = EO A C (root C)
-     temps_ok A C ts = forall i < |C|, node i is not TrueN -> nth i ts 0 = nth i (countsA A C) 0
+     Reach C i       = i is the root or a child of a reachable node with a non-zero count (Proofs/Live.v)
+     temps_ok A C ts = forall i < |C|, node i is not TrueN -> Reach C i ->
+                       nth i ts 0 = nth i (countsA A C) 0
+                       (inside a dead branch the temps may be stale since the core ignores dead
+                        branches, F22: Proofs/ExecTemps.v; enumerate_node never gets there)
      or_no_true_child C : no Or node has a TrueN child
      enum_key A      = dedup (sort_abs A): the cursor key of an assumption list since the repair F19
                        (sorted by feature, repeated literals removed; Model/Enumerate.v)
@@ -51,7 +55,7 @@ Print Assumptions C06_mixed_radix_prefix.
    enumeration under A, as lists (order included) *)
 Theorem C06_enumerate_node_slice : forall (d : ddnnf) (A : cfg) (ts : list Z),
   idx_ok (circ d) = true -> temps_ok A (circ d) ts -> or_no_true_child (circ d) = true ->
-  forall i, (i < length (circ d))%nat -> nth i (circ d) FalseN <> TrueN ->
+  forall i, (i < length (circ d))%nat -> nth i (circ d) FalseN <> TrueN -> Reach (circ d) i ->
   forall fuel lo hi, (i < fuel)%nat -> 0 <= lo < hi ->
     hi <= Z.of_nat (length (EO A (circ d) i)) ->
     enumerate_node d ts fuel lo hi i = slice lo hi (EO A (circ d) i).
@@ -66,7 +70,7 @@ Example C06_or_true_child_refuted :
   enumerate_node (build bad_or 1) [1;0;2] 3 0 2 2 <> slice 0 2 (EO [] bad_or 2).
 Proof.
   split; [reflexivity|]. split; [|vm_compute; discriminate].
-  intros i Hi Hnt. do 3 (destruct i as [|i]; [try reflexivity; exfalso; now apply Hnt|]).
+  intros i Hi Hnt _. do 3 (destruct i as [|i]; [try reflexivity; exfalso; now apply Hnt|]).
   cbn in Hi. lia.
 Qed.
 
